@@ -205,6 +205,8 @@ def inline(F, t, pred, depth=4, _cache=None):
         return project1(inline(F, t[1], pred, depth, _cache), "." + t[2])
     if t[0] == "as":
         return project1(inline(F, t[1], pred, depth, _cache), "@" + t[2])
+    if t[0] == "index" and len(t) == 3 and isinstance(t[2], str):
+        return project1(inline(F, t[1], pred, depth, _cache), t[2])
     out = []
     for x in t:
         if isinstance(x, tuple):
